@@ -315,6 +315,8 @@ class C10(Harness):
                     e = ups[k]
                     k += 1
                     P.check("composite-propagates-update", len(e["vals"]) == len(b["vals"]))
+                    if "update_params" in e:  # the inner estimator is told the same update_params as the composite
+                        P.check("composite-propagates-update", e["update_params"] == st["op"].endswith("1"), {"op": st["op"], "inner_update_params": e["update_params"]})
                     for v, w_ in zip(e["vals"], b["vals"]):
                         P.eq("composite-propagates-update", v, Tf(w_) if kind == "pipeline" else w_)
 
